@@ -67,6 +67,7 @@ pub const FAULT_KINDS: &[&str] = &[
     "referral_self",
     "referral_deeper_fake",
     "referral_glueless_alias_ns",
+    "referral_in_answer_section",
     "cname_loop_inline",
     "cname_to_loop",
     "cname_stream",
@@ -509,6 +510,24 @@ impl UniverseNet {
                     }
                 }
             }
+            "referral_in_answer_section" => {
+                // a correct referral, but with its NS records (and, every other
+                // time, its glue) in the ANSWER section, where the resolver also looks
+                let is_referral = resp.answers.is_empty()
+                    && resp.authority.iter().any(|r| matches!(r.rtype_with_data, RecordTypeWithData::NS { .. }));
+                if is_referral {
+                    let ns: Vec<ResourceRecord> = resp.authority.drain(..).collect();
+                    if h % 3 == 0 {
+                        // ... in both sections
+                        resp.authority = ns.clone();
+                    }
+                    resp.answers = ns;
+                    if h % 2 == 0 {
+                        let glue: Vec<ResourceRecord> = resp.additional.drain(..).collect();
+                        resp.answers.extend(glue);
+                    }
+                }
+            }
             "referral_unresolvable" | "referral_self" | "referral_deeper_fake" => {
                 clear(&mut resp);
                 resp.header.is_authoritative = false;
@@ -775,9 +794,19 @@ impl UniverseNet {
                 while labels(&owner) > want {
                     owner = parent(&owner).unwrap_or_else(|| ".".into());
                 }
-                resp.authority.push(rr(&owner, &format!("NS {evil_ns}"), 300));
+                let hp = world::with(|w| w.derived("upstream.poison_position", &qname));
+                if hp % 3 == 0 {
+                    resp.answers.push(rr(&owner, &format!("NS {evil_ns}"), 300));
+                } else {
+                    resp.authority.push(rr(&owner, &format!("NS {evil_ns}"), 300));
+                }
                 let g = self.tagged_a(&evil_ns, 300);
-                resp.additional.push(g);
+                if hp % 2 == 0 {
+                    resp.additional.push(g);
+                } else {
+                    // glue is also looked for in the answer section
+                    resp.answers.push(g);
+                }
             }
             "neg_soa_foreign_owner" => {
                 // a negative reply whose single SOA belongs to somebody else
